@@ -1,6 +1,9 @@
 package ringz
 
-import "unsafe"
+import (
+	"reflect"
+	"unsafe"
+)
 
 // Added to a scratch copy of the package by /verif (never to /repo): read-only
 // access to the representation for the structural projection.
@@ -9,23 +12,76 @@ func VerifRingState[T any](r *Ring[T]) (values []T, head, tail, cap int) {
 	return r.values, r.head, r.tail, r.cap
 }
 
+// The SyncRing accessors go through reflection so that they keep working when the width of the
+// counters changes (a refactor to uint64 counters must not blind the checks).
+
+func fieldUint(v reflect.Value) uint64 {
+	switch v.Kind() {
+	case reflect.Uint, reflect.Uint8, reflect.Uint16, reflect.Uint32, reflect.Uint64, reflect.Uintptr:
+		return v.Uint()
+	case reflect.Int, reflect.Int8, reflect.Int16, reflect.Int32, reflect.Int64:
+		return uint64(v.Int())
+	case reflect.Struct: // typed atomics: a struct with one integer field (after noCopy / align markers)
+		for i := v.NumField() - 1; i >= 0; i-- {
+			switch v.Field(i).Kind() {
+			case reflect.Uint32, reflect.Uint64, reflect.Int32, reflect.Int64:
+				return fieldUint(v.Field(i))
+			}
+		}
+	}
+	panic("verif: counter field of unexpected kind " + v.Kind().String())
+}
+
+func setFieldUint(v reflect.Value, x uint64) {
+	w := reflect.NewAt(v.Type(), unsafe.Pointer(v.UnsafeAddr())).Elem()
+	switch w.Kind() {
+	case reflect.Uint, reflect.Uint8, reflect.Uint16, reflect.Uint32, reflect.Uint64, reflect.Uintptr:
+		if sz := uint(w.Type().Size()); sz < 8 {
+			x &= 1<<(8*sz) - 1
+		}
+		w.SetUint(x)
+	case reflect.Int, reflect.Int8, reflect.Int16, reflect.Int32, reflect.Int64:
+		w.SetInt(int64(x))
+	case reflect.Struct:
+		for i := w.NumField() - 1; i >= 0; i-- {
+			switch w.Field(i).Kind() {
+			case reflect.Uint32, reflect.Uint64, reflect.Int32, reflect.Int64:
+				setFieldUint(w.Field(i), x)
+				return
+			}
+		}
+		panic("verif: no integer inside counter struct")
+	default:
+		panic("verif: counter field of unexpected kind " + w.Kind().String())
+	}
+}
+
 func VerifSyncRingState[T any](r *SyncRing[T]) (head, tail uint32, seq []uint32, vals []T, cap uint32) {
+	rv := reflect.ValueOf(r).Elem()
+	head = uint32(fieldUint(rv.FieldByName("head")))
+	tail = uint32(fieldUint(rv.FieldByName("tail")))
 	seq = make([]uint32, len(r.values))
 	vals = make([]T, len(r.values))
+	vs := rv.FieldByName("values")
 	for i := range r.values {
-		seq[i] = r.values[i].pos
+		seq[i] = uint32(fieldUint(vs.Index(i).FieldByName("pos")))
 		vals[i] = r.values[i].value
 	}
-	return r.head, r.tail, seq, vals, r.cap
+	return head, tail, seq, vals, uint32(fieldUint(rv.FieldByName("cap")))
 }
 
 // VerifSyncRingSetBase puts a fresh (empty) ring into exactly the state that `base`
-// Push/Pop pairs produce: both counters at base, every slot carrying the position at
-// which it will next be written.
+// Push/Pop pairs produce: both counters at base (not wrapped, if they are wider than 32 bits),
+// every slot carrying the position at which it will next be written (in the slot's own width).
 func VerifSyncRingSetBase[T any](r *SyncRing[T], base uint32) {
-	r.head, r.tail = base, base
+	rv := reflect.ValueOf(r).Elem()
+	setFieldUint(rv.FieldByName("head"), uint64(base))
+	setFieldUint(rv.FieldByName("tail"), uint64(base))
+	mask := uint64(len(r.values) - 1)
+	vs := rv.FieldByName("values")
 	for i := range r.values {
-		r.values[i].pos = base + ((uint32(i) - base) & r.mask)
+		pos := uint64(base) + ((uint64(i) - uint64(base)) & mask)
+		setFieldUint(vs.Index(i).FieldByName("pos"), pos)
 	}
 }
 
